@@ -66,6 +66,11 @@ func runC01(c *eng.Ctx) {
 	ruleReadFillsOrFails(c)
 	c.Floor(2)
 
+	// ---- R01.12 (shared) Truncate removes exactly the messages at and above the offset
+	c.Rule("R01.12", "K5")
+	ruleTruncateShapes(c)
+	c.Floor(8)
+
 }
 
 func ruleOffsetIdentity(c *eng.Ctx) {
